@@ -3,6 +3,9 @@
 package piecepicker
 
 import (
+	"reflect"
+	"unsafe"
+
 	"github.com/cenkalti/rain/v2/internal/peer"
 	"github.com/cenkalti/rain/v2/internal/webseedsource"
 )
@@ -48,6 +51,78 @@ type VerifDump struct {
 	Available uint32
 	Endgame   bool
 	Bad       int8 // pointers that could not be mapped, or set sizes beyond VerifMaxPeers (must be 0)
+	// mutable scalar fields this hook does not know by name (added to PiecePicker / myPiece after it was written):
+	// captured generically so that the state value stays complete; fields of other kinds count as Bad
+	Extra      [verifMaxExtra]uint64
+	PieceExtra [VerifMaxPieces][verifMaxExtra]uint64
+}
+
+const verifMaxExtra = 4
+
+type verifExtraField struct {
+	off  uintptr
+	size uintptr
+}
+
+var verifExtraTop, verifExtraPiece []verifExtraField
+var verifExtraBad int8
+
+func verifScanExtras(t reflect.Type, known map[string]bool) (out []verifExtraField) {
+	for i := 0; i < t.NumField(); i++ {
+		f := t.Field(i)
+		if known[f.Name] {
+			continue
+		}
+		switch f.Type.Kind() {
+		case reflect.Bool, reflect.Int, reflect.Int8, reflect.Int16, reflect.Int32, reflect.Int64,
+			reflect.Uint, reflect.Uint8, reflect.Uint16, reflect.Uint32, reflect.Uint64, reflect.Uintptr:
+			if len(out) < verifMaxExtra {
+				out = append(out, verifExtraField{f.Offset, f.Type.Size()})
+				continue
+			}
+		}
+		verifExtraBad++ // a field this hook can neither name nor copy: the search must not go on with partial states
+	}
+	return out
+}
+
+func init() {
+	verifExtraTop = verifScanExtras(reflect.TypeOf(PiecePicker{}), map[string]bool{"webseedSources": true, "pieces": true, "piecesByAvailability": true,
+		"piecesByStalled": true, "maxDuplicateDownload": true, "maxWebseedPieces": true, "available": true, "endgame": true, "sequential": true})
+	verifExtraPiece = verifScanExtras(reflect.TypeOf(myPiece{}), map[string]bool{"Piece": true, "Having": true, "Requested": true, "Snubbed": true,
+		"Choked": true, "RequestedWebseed": true, "FileHead": true, "FileTail": true})
+}
+
+func verifReadExtra(base unsafe.Pointer, fs []verifExtraField, out *[verifMaxExtra]uint64) {
+	for k, f := range fs {
+		q := unsafe.Add(base, f.off)
+		switch f.size {
+		case 1:
+			out[k] = uint64(*(*uint8)(q))
+		case 2:
+			out[k] = uint64(*(*uint16)(q))
+		case 4:
+			out[k] = uint64(*(*uint32)(q))
+		default:
+			out[k] = *(*uint64)(q)
+		}
+	}
+}
+
+func verifWriteExtra(base unsafe.Pointer, fs []verifExtraField, in *[verifMaxExtra]uint64) {
+	for k, f := range fs {
+		q := unsafe.Add(base, f.off)
+		switch f.size {
+		case 1:
+			*(*uint8)(q) = uint8(in[k])
+		case 2:
+			*(*uint16)(q) = uint16(in[k])
+		case 4:
+			*(*uint32)(q) = uint32(in[k])
+		default:
+			*(*uint64)(q) = in[k]
+		}
+	}
 }
 
 func verifDumpSet(items []*peer.Peer, peers []*peer.Peer, out *VerifSet, bad *int8) {
@@ -107,6 +182,14 @@ func (p *PiecePicker) VerifDump(peers []*peer.Peer, d *VerifDump) {
 	}
 	d.Available = p.available
 	d.Endgame = p.endgame
+	if len(verifExtraTop) > 0 {
+		verifReadExtra(unsafe.Pointer(p), verifExtraTop, &d.Extra)
+	}
+	if len(verifExtraPiece) > 0 {
+		for i := range p.pieces {
+			verifReadExtra(unsafe.Pointer(&p.pieces[i]), verifExtraPiece, &d.PieceExtra[i])
+		}
+	}
 }
 
 func verifLoadSet(in *VerifSet, peers []*peer.Peer, items *[]*peer.Peer) {
@@ -143,6 +226,14 @@ func (p *PiecePicker) VerifLoad(d *VerifDump, peers []*peer.Peer) {
 	}
 	p.available = d.Available
 	p.endgame = d.Endgame
+	if len(verifExtraTop) > 0 {
+		verifWriteExtra(unsafe.Pointer(p), verifExtraTop, &d.Extra)
+	}
+	if len(verifExtraPiece) > 0 {
+		for i := range p.pieces {
+			verifWriteExtra(unsafe.Pointer(&p.pieces[i]), verifExtraPiece, &d.PieceExtra[i])
+		}
+	}
 }
 
 // VerifConst returns the constants fixed by New.
@@ -164,3 +255,7 @@ func (p *PiecePicker) VerifEdges() (head, tail []bool) {
 // single piece and the steal paths unreachable; setting it to k reproduces, at small scale, the range
 // geometry of a torrent with 20*k pieces.
 func (p *PiecePicker) VerifSetMaxWebseedPieces(k int) { p.maxWebseedPieces = k }
+
+// VerifUncopyableFields is the number of struct fields of the picker that this hook can neither name nor copy
+// (non-scalar fields added after it was written). The explicit-state search refuses to run on partial states.
+func VerifUncopyableFields() int { return int(verifExtraBad) }
